@@ -60,4 +60,15 @@ CLAIMED['C15'] = dict(category='proof',
    note=_ASSUME + 'Small array sizes (3 cells, 2-3 pins, 1-3 ducts) - the methods use only max/argmax over the arrays; '
         'the whole-sweep claim is the induction over steps. Printed tables are not decided.',
    technique='contract-based deductive verification (proxy execution with exhaustive path enumeration over comparisons)')
+CLAIMED['C05'] = dict(category='proof',
+   text='The real mesh construction is verified with all lengths on the 1e-12 m rounding grid (integer atoms, np.around and '
+        'np.floor as integer atoms with their defining inequalities): boundaries are merged to a strictly increasing grid '
+        'sequence ending at the core length; one iteration of the while loop of _setup_zpts (cut mechanically from the '
+        'source) from ANY grid state below L makes strict progress of at least one grid unit, never skips a boundary, never '
+        'passes L, returns a step <= the required step; the required step is <= every stability limit, honours a smaller '
+        'user request and ignores a larger one, and is >= one grid unit or the construction stops with an error.',
+   note=_ASSUME + 'Real-arithmetic model of rounding (ties unspecified). Boundary counts 2-3 quick / up to 5 thorough (the '
+        'loop body only tests each boundary independently). Termination and exact-on-boundaries are the induction over '
+        'iterations of the proved step facts (variant: grid points in (z, L]).',
+   technique='contract-based deductive verification (loop cut from the real source, loop-body VCs over mixed integer/real linear arithmetic, z3)')
 NOT_APPLICABLE = {f'C{i:02d}': 'check not built yet in this round (see DESIGN.md section 12 build order)' for i in range(1, 21)}
